@@ -60,6 +60,8 @@ func checkC20(c *Ctx, r *Report) {
 	c20DedupOnce(c, r, "C20.R4.dedup-once")
 	c20SvcbPackErrors(c, r, "C20.R1.svcb-pack-errors")
 	c20CopyNetValues(c, r, "C20.R3.copynet-values")
+	r.rule("C20.R4.escape-toggle", 1, "normalizedString toggles its escape flag on a backslash")
+	escapeToggle(c, r, "C20.R4.escape-toggle", "normalizedString", "a capital letter behind an escaped backslash is not folded in the Dedup key: records that IsDuplicate calls equal are kept apart and their TTLs not merged")
 }
 
 // c20R5: sort.Slice(x, less): the less closure indexes x and nothing else with its two index parameters
